@@ -65,6 +65,13 @@ func init() {
 }
 
 func udpRouteOne(singleplex bool, method string, apps int, sizes []int, order string) string {
+	m, _ := udpRouteRun(singleplex, method, apps, sizes, order, false)
+	return m
+}
+
+// udpRouteRun: with emptyAnswers the datagram service sends an empty datagram before each answer
+// (legal UDP) and only the wire is of interest - the caller inspects the returned rig's tap.
+func udpRouteRun(singleplex bool, method string, apps int, sizes []int, order string, emptyAnswers bool) (string, *e2eRig) {
 	uid := uidOf(0)
 	r := newE2ERig(nil, nil, nil)
 	r.sta.Panel = MakeUserPanel(newMemManager())
@@ -94,6 +101,9 @@ func udpRouteOne(singleplex bool, method string, apps int, sizes []int, order st
 					heard <- struct{}{}
 					go func() {
 						<-release // answer only after every application has sent everything
+						if emptyAnswers {
+							pc.Write([]byte{})
+						}
 						pc.Write(append([]byte("ans:"), q...))
 					}()
 				}
@@ -117,14 +127,14 @@ func udpRouteOne(singleplex bool, method string, apps int, sizes []int, order st
 	}
 	front, err := net.ListenUDP("udp", &net.UDPAddr{IP: net.IPv4(127, 0, 0, 1)})
 	if err != nil {
-		return "cannot open a loopback UDP socket: " + err.Error()
+		return "cannot open a loopback UDP socket: " + err.Error(), r
 	}
 	go client.RouteUDP(func() (*net.UDPConn, error) { return front, nil }, 300*rtime.Second, singleplex, seshMaker)
 	socks := make([]*net.UDPConn, apps)
 	for i := range socks {
 		s, err := net.DialUDP("udp", nil, front.LocalAddr().(*net.UDPAddr))
 		if err != nil {
-			return err.Error()
+			return err.Error(), r
 		}
 		defer s.Close()
 		socks[i] = s
@@ -161,16 +171,20 @@ func udpRouteOne(singleplex bool, method string, apps int, sizes []int, order st
 	}
 	for _, s := range plan {
 		if _, err := socks[s.app].Write(query(s.app, s.k)); err != nil {
-			return "send: " + err.Error()
+			return "send: " + err.Error(), r
 		}
 		// one at a time, so that the order at RouteUDP is the planned one
 		select {
 		case <-heard:
 		case <-rtime.After(30 * rtime.Second):
-			return fmt.Sprintf("query %d of application %d never reached the datagram proxy", s.k, s.app)
+			return fmt.Sprintf("query %d of application %d never reached the datagram proxy", s.k, s.app), r
 		}
 	}
 	close(release)
+	if emptyAnswers {
+		rtime.Sleep(500 * rtime.Millisecond) // let whatever the server sends reach the tap; delivery is not judged here
+		return "", r
+	}
 	for a := 0; a < apps; a++ {
 		var got [][]byte
 		buf := make([]byte, 20000)
@@ -178,14 +192,14 @@ func udpRouteOne(singleplex bool, method string, apps int, sizes []int, order st
 			socks[a].SetReadDeadline(rtime.Now().Add(30 * rtime.Second))
 			k, err := socks[a].Read(buf)
 			if err != nil {
-				return fmt.Sprintf("application %d received %d of %d answers (%v)", a, len(got), len(sizes), err)
+				return fmt.Sprintf("application %d received %d of %d answers (%v)", a, len(got), len(sizes), err), r
 			}
 			got = append(got, append([]byte{}, buf[:k]...))
 		}
 		// nothing more may arrive for this application
 		socks[a].SetReadDeadline(rtime.Now().Add(300 * rtime.Millisecond))
 		if k, err := socks[a].Read(buf); err == nil {
-			return fmt.Sprintf("application %d received an extra datagram of %d bytes starting % x", a, k, buf[:min(k, 8)])
+			return fmt.Sprintf("application %d received an extra datagram of %d bytes starting % x", a, k, buf[:min(k, 8)]), r
 		}
 		var want [][]byte
 		for k := range sizes {
@@ -195,10 +209,10 @@ func udpRouteOne(singleplex bool, method string, apps int, sizes []int, order st
 		sort.Slice(want, func(i, j int) bool { return bytes.Compare(want[i], want[j]) < 0 })
 		for k := range want {
 			if !bytes.Equal(got[k], want[k]) {
-				return fmt.Sprintf("application %d received a datagram of %d bytes starting % x that is not an answer to one of its own queries", a, len(got[k]), got[k][:min(len(got[k]), 8)])
+				return fmt.Sprintf("application %d received a datagram of %d bytes starting % x that is not an answer to one of its own queries", a, len(got[k]), got[k][:min(len(got[k]), 8)]), r
 			}
 		}
 	}
 	_ = total
-	return ""
+	return "", r
 }
